@@ -11,9 +11,9 @@ run_demo() {
   else cargo test -j 4 --offline --workspace seeded 2>&1 | tail -n 30; fi
 }
 with=$(run_demo); echo "$with" | grep -q "test result: FAILED" && W=fails || W=passes
-git stash push -q -- $(git diff --name-only | grep -v seeded_demo) 2>/dev/null
+git diff > /tmp/confirm.$ID.patch; git apply -R /tmp/confirm.$ID.patch
 without=$(run_demo); echo "$without" | grep -q "test result: ok" && ! echo "$without" | grep -q "test result: FAILED" && WO=passes || WO=fails
-git stash pop -q
+git apply /tmp/confirm.$ID.patch
 [ -n "$DEMO_TEST" ] && mv "$DEMO_TEST" /tmp/seeded_demo.$ID.rs
 suite=$(cargo test -j 6 --offline --workspace --no-fail-fast 2>&1 | grep -E "^test " | grep -v seeded)
 [ -n "$DEMO_TEST" ] && mv /tmp/seeded_demo.$ID.rs "$DEMO_TEST"
